@@ -194,7 +194,7 @@ def attribute(j, prop, known):
     deviation trigger holds for the case (computed by TauKnown!Devs inside TLC) and the clause
     that judged the event is one the finding lists."""
     for k in known:
-        if k.get("status") != "open" or k.get("property") != prop:
+        if k.get("status") != "open" or prop not in k.get("properties", []):
             continue
         if k.get("dev") in j.get("devs", []) and j.get("rule") in k.get("rules", []):
             return k
